@@ -73,15 +73,16 @@ _hist_rule = ('cases: random histories (4-40 ops) over one Number (finite test n
               'the end), push iterators All/Values/Backward stopped after k items, AsString, v1 NumDigits; versions rotate. Non-trivial: the history '
               'contains pulls, runs, limits, starts or backward traversals; distinct = distinct (version, args).')
 PROPS['C04'] = dict(
-    theorem='C04_at, C04_scan, C04_pulls, C04_history_independent, C04_listing_consecutive (Properties/C04.v)',
+    theorem='C04_at, C04_scan, C04_pulls, C04_history_independent, C04_v3_iterator, C04_limit_at, C04_first_n, C04_limit_iterator, C04_full_iterator, C04_listing_consecutive (Properties/C04.v)',
     functional=True,
     level_text='Theorems for every digit string D, every oracle for memoizer.wait satisfying the wait contract (so every block size, timing and '
                'interleaving) and every history: At = D[i]; Scan/ScanValues with early exit = the first k positions of [idx, limit); any sequence of '
                'pulls on a pull iterator, with arbitrary other calls in between, delivers consecutive positions then "end" forever; two iterators '
                'created at the same index agree whatever their histories. The reference semantics (listing of D restricted to the view) is run against '
                'all read paths of all three versions on random interleaved histories.',
-    level_note='Proved on the model of memoizer.At / Scan / v1-v2 IteratorAt (LayerC.v). The remaining wrappers (v3 lazy IteratorAt, fullIteratorAt prefetch, '
-               'ReverseTo/ReverseScan over FirstN, limitSpec clamps) are covered by the correspondence run only; their proofs are listed as future work in DESIGN.md.',
+    level_note='Proved for every wait oracle: memoizer.At, Scan/ScanValues, v1-v2 IteratorAt, v3 lazy IteratorAt(index, limit), limitSpec.At, FirstN (behind every backward read), '
+               'the v1/v2 limitSpec iterator wrapper and the prefetching fullIteratorAt (LayerC.v, LayerC2.v). The composition of these pieces into each exported method per '
+               'version (which piece a method calls with which arguments) is tied by the correspondence run.',
     rule=_hist_rule, modelled='memoizer.wait as an oracle constrained by WaitOK', assumptions=[],
 )
 PROPS['C07'] = dict(
